@@ -24,8 +24,8 @@ ASSUMPTIONS = ["scope: every automat machine of the client (the thirteen mailbox
                "the cases that call dilate() - the Dilation machines); subchannels are not used by these programs",
                "after the application has observed closure it issues only get_*/close",
                "server `error` replies other than the consequences of a third participant are flagged"]
-FLOORS = {"quick": {"transitions": 60000, "closed_sides": 1000, "dilated_cases": 150, "prompt_race_cases": 50, "api_calls_from_inside_a_notification": 300, "closes_from_the_wordlist_callback": 10, "closes_from_a_reconnecting_status": 15, "api_calls_from_status_updates": 400},
-          "thorough": {"transitions": 3000000, "closed_sides": 50000, "dilated_cases": 8000, "prompt_race_cases": 2500, "api_calls_from_inside_a_notification": 15000, "closes_from_the_wordlist_callback": 500, "closes_from_a_reconnecting_status": 800, "api_calls_from_status_updates": 20000}}
+FLOORS = {"quick": {"transitions": 60000, "closed_sides": 1000, "dilated_cases": 150, "prompt_race_cases": 50, "api_calls_from_inside_a_notification": 300, "closes_from_the_wordlist_callback": 10, "closes_from_a_reconnecting_status": 15, "api_calls_from_status_updates": 400, "closes_while_offline_before_the_words": 3},
+          "thorough": {"transitions": 3000000, "closed_sides": 50000, "dilated_cases": 8000, "prompt_race_cases": 2500, "api_calls_from_inside_a_notification": 15000, "closes_from_the_wordlist_callback": 500, "closes_from_a_reconnecting_status": 800, "api_calls_from_status_updates": 20000, "closes_while_offline_before_the_words": 100}}
 DOCUMENTED_VERDICTS = ("happy", "LonelyError", "WrongPasswordError", "ServerError", "WelcomeError",
                        "ServerConnectionError")
 WORDS = ["purple", "sausages", "alpha", "beta", "zulu", "absurd"]
@@ -49,8 +49,8 @@ def cases(tier, seed, prep=None):
         out.append({"kind": "program", "seed": seed * 1000003 + 1495000 + i, "mode": "tcp", "third": False, "welcome_error": None,
                     "late_code": False, "mismatch": False, "late_welcome_error": False, "after_close": False,
                     "dilate": True, "dilate_race": True})
-    for i in range(60 if q else 3000):
-        race = ["close", "close+drop", "unwelcome"][i % 3]
+    for i in range(80 if q else 4000):
+        race = ["close", "close+drop", "unwelcome", "drop+close"][i % 4]
         out.append({"kind": "program", "seed": seed * 1000003 + 1480000 + i, "mode": "tcp", "third": False, "welcome_error": None,
                     "late_code": False, "mismatch": i % 4 == 3, "late_welcome_error": False, "after_close": race != "unwelcome",
                     "prompt_race": race})
@@ -96,7 +96,7 @@ class Prog:
             # welcome error on a reconnect, or by close() while the connection is down
             self.method = "input"
             self.words_gate = "after-closing"
-            self.close_gate = "pake" if race in ("close", "close+drop") else "never"
+            self.close_gate = "pake" if race in ("close", "close+drop") else "never"     # (drop+close: the hook closes)
             self.budget["close"] = max(self.budget["close"], 1)
         self.api_exc = []        # unexpected exceptions escaping API calls
         self.ncalls = 0
@@ -405,6 +405,22 @@ def run_case(spec):
                     return
         sch.hook = hook
     race = spec.get("prompt_race")
+    if race == "drop+close":
+        # the connection goes first; the user gives up (close()) once the client has noticed, i.e. while it is
+        # offline; the words typed at the prompt arrive after that, still offline; then the network comes back
+        fired = []
+        pb = drv.progs[1]
+
+        def hook():
+            if not fired and pb.seen_peer_pake() and state_of(pb.app.w._boss._M) == "S2B":
+                fired.append("drop")
+                drv.drop(1)
+            elif fired == ["drop"] and state_of(pb.app.w._boss._M) == "S2A" and not pb.app.close_calls:
+                fired.append("close")
+                pb.offline_closes = 1
+                pb.budget["close"] = max(0, pb.budget["close"] - 1)
+                pb._api("close", pb.app.close)
+        sch.hook = hook
     if race in ("close+drop", "unwelcome"):
         fired = []
         pb = drv.progs[1]
@@ -495,7 +511,7 @@ def run_case(spec):
                          "never_closed_sides": sum(int(not p.app.closed) for p in drv.progs),
                          "drops": drv.drops, "third_clients": int(len(drv.progs) > 2),
                          "adv_dups": world.adversary.dups, "adv_out_of_order": world.adversary.out_of_order,
-                         "mode_" + spec.get("mode", "tcp"): 1, "prompt_race_cases": int(bool(spec.get("prompt_race"))), "dilated_cases": int(bool(spec.get("dilate")))},
+                         "mode_" + spec.get("mode", "tcp"): 1, "prompt_race_cases": int(bool(spec.get("prompt_race"))), "closes_while_offline_before_the_words": sum(getattr(p, "offline_closes", 0) for p in drv.progs), "dilated_cases": int(bool(spec.get("dilate")))},
             "sets": {"triples": triples, "verdicts": [v for p in drv.progs for v in p.app.close_results]},
             "sample": {"spec": spec, "methods": {p.name: p.method for p in drv.progs},
                        "calls_A": drv.progs[0].app.calls[:25], "events_A": drv.progs[0].app.kinds(),
